@@ -45,6 +45,11 @@ func VP_C03_EntryPoints() {
 	if vpChoose("pwkind", 2) == 1 {
 		pw = "xpw"
 	}
+	fresh := filepath.Join(root, "fresh")
+	if os.Mkdir(fresh, 0700) != nil {
+		panic("setup")
+	}
+	confined := base
 	sibBefore := vpFsSnapshot(sib)
 	rootBefore := vpFsSnapshot(root)
 	vpTraceBegin()
@@ -67,12 +72,13 @@ func VP_C03_EntryPoints() {
 	case 5:
 		ok, _, _, _, _ := d.Authenticate(u, pw)
 		vpAssert("invalid-name-never-authenticates", vpImp(!valid, !ok))
-	case 6:
-		err := d.Init(u, pw)
+	case 6: // init needs an empty directory: a third store next to the two
+		confined = fresh
+		err := vpNewDir(fresh, 1).Init(u, pw)
 		vpAssert("init-with-invalid-name-fails", vpImp(!valid, err != nil))
 	}
 	vpTraceEnd()
-	vpAssert("model: effects-confined-to-base-dir", vpFsConfined(base))
+	vpAssert("model: effects-confined-to-base-dir", vpFsConfined(confined))
 	vpAssert("sibling-store-untouched", vpFsSame(sibBefore, vpFsSnapshot(sib)))
 	vpAssert("invalid-name-changes-nothing", vpImp(!valid, vpFsSame(rootBefore, vpFsSnapshot(root))))
 	vpCover("end")
